@@ -82,6 +82,14 @@ void AbstractParameterAliasable::aliasParameters(const std::string& p1, const st
 
   if (aliasListenersRegister_.find(idCheck) != aliasListenersRegister_.end())
     throw Exception("AbstractParameterAliasable::aliasParameters. Trying to alias parameter " + p2 + " to " + p1 + ", but parameter " + p1 + " is already aliased to parameter " + p2 + ".");
+  // p1 must not depend on p2, directly or through a chain of aliases (that would close a cycle):
+  string source = p1;
+  while (source != "")
+  {
+    if (source == p2)
+      throw Exception("AbstractParameterAliasable::aliasParameters. Trying to alias parameter " + p2 + " to " + p1 + ", but parameter " + p1 + " is (directly or indirectly) aliased to parameter " + p2 + ".");
+    source = getFrom(getNamespace() + source);
+  }
   Parameter* param1 = &getParameter_(p1);
   Parameter* param2 = &getParameter_(p2);
 
